@@ -669,6 +669,17 @@ func (rr *runRec) doOp(client, idx int, op Op) {
 		res = fmt.Sprintf("%d,%v,%v,%v,%d", b.Current(), b.Completed(), b.Aborted(), b.IsRunning(), b.ID())
 	case "barwait":
 		b.Wait()
+	case "busy":
+		// keeps the bar's goroutine occupied until the scenario's cancellation landed (bounded)
+		// (a slow callback inside the bar's goroutine: when it returns, a pending
+		// render request and the cancellation are both ready)
+		slow := func(decor.Decorator) { time.Sleep(time.Duration(1500+op.N) * time.Microsecond) }
+		for t0 := time.Now(); !rr.cancelled.Load() && !rr.finished.Load() && time.Since(t0) < 2*time.Second; {
+			b.TraverseDecorators(slow)
+		}
+		for k := 0; k < 3; k++ {
+			b.TraverseDecorators(slow)
+		}
 	case "barwaitget":
 		b.Wait()
 		c, ab, run := b.Completed(), b.Aborted(), b.IsRunning()
